@@ -12,7 +12,7 @@ for d in sorted(glob.glob(os.path.join(VERIF, 'seeded', '*', 'meta.json'))):
     p = os.path.join(os.path.dirname(d), 'detection.json')
     if os.path.exists(p):
         det = json.load(open(p))
-    target = name[:3]
+    target = meta.get('checked_by') or name[:3]
     by = det.get('detected_by')
     wi = det.get('with_failing_input', [])
     rows.append((name, target, meta.get('summary', '')[:150].replace('|', '/').replace('\n', ' '), by, wi))
